@@ -28,6 +28,8 @@ type C11Case struct {
 	Shape  string `json:"shape"`   // *-extra: what the surplus looks like
 	By     int    `json:"by"`      // bystander RPCs in flight (0..4)
 	Ser    bool   `json:"ser"`
+	// Deadline: the abandoned stream is opened with a (far) caller deadline
+	Deadline bool `json:"deadline,omitempty"`
 }
 
 func genC11(t *rapid.T) C11Case {
@@ -35,6 +37,7 @@ func genC11(t *rapid.T) C11Case {
 	c.Kind = rapid.SampledFrom(streamKinds).Draw(t, "kind")
 	c.By = rapid.IntRange(0, 4).Draw(t, "by")
 	c.Ser = rapid.Bool().Draw(t, "ser")
+	c.Deadline = rapid.Bool().Draw(t, "deadline")
 	switch c.Mode {
 	case "handler-early":
 		c.Kind = rapid.SampledFrom([]int{kit.KindClient, kit.KindBidi}).Draw(t, "ckind")
@@ -61,7 +64,7 @@ func c11Grid() []C11Case {
 	for _, kind := range []int{kit.KindClient, kit.KindBidi} {
 		for n := 1; n <= 8; n++ {
 			for k := 0; k < n; k++ {
-				out = append(out, C11Case{Mode: "handler-early", Kind: kind, K: k, N: n, RetErr: (n+k)%2 == 0, By: (n + k) % 3})
+				out = append(out, C11Case{Mode: "handler-early", Kind: kind, K: k, N: n, RetErr: (n+k)%2 == 0, By: (n + k) % 3, Deadline: (n*k)%2 == 1})
 			}
 		}
 	}
@@ -195,6 +198,11 @@ func execC11(t *testing.T, c C11Case) (v Verdict) {
 			cc := w.Conn(0)
 			ctx, cancel := context.WithCancel(context.Background())
 			defer cancel()
+			if c.Deadline {
+				var c2 context.CancelFunc
+				ctx, c2 = context.WithTimeout(ctx, 10*time.Hour)
+				defer c2()
+			}
 			cs, err := cc.NewStream(ctx, kit.StreamDescFor(c.Kind), kit.FullMethod("t"))
 			if err != nil {
 				v.failf("open: %v", err)
@@ -437,7 +445,7 @@ func execC11(t *testing.T, c C11Case) (v Verdict) {
 			v.failf("%s", msg)
 		}
 	}
-	labels := []string{"mode=" + c.Mode, "kind=" + kit.KindNames[c.Kind], fmt.Sprintf("by=%d", c.By)}
+	labels := []string{"mode=" + c.Mode, "kind=" + kit.KindNames[c.Kind], fmt.Sprintf("by=%d", c.By), fmt.Sprintf("deadline=%v", c.Deadline)}
 	nt := c.By >= 1
 	if c.Mode == "handler-early" {
 		labels = append(labels, fmt.Sprintf("unread_bodies=%d", c.N-c.K))
